@@ -329,3 +329,57 @@ def closed_forms(ctx, case):
 
 contract("C16", "mdtraj/geometry/", "compute_center_of_geometry|compute_center_of_mass|compute_gyration_tensor|compute_rg",
          cases=["center_of_geometry", "center_of_mass", "gyration_tensor", "rg"], replay="descriptors", covers=["returned"], max_paths=50)(closed_forms)
+
+
+# =====================================================================================================
+# DRID: running moments (mdtraj/geometry/src/moments.cpp) and the per-atom kernel drid_moments (dridkernels.cpp)
+def running_moments(ctx, case):
+    """Rep(self, S) for the multiset S pushed so far with power sums s1, s2, s3 and n = |S| >= 1:
+           _n = n,  _u = s1/n,  _M2 = sum (x-u)^2 = s2 - n u^2,  _M3 = sum (x-u)^3 = s3 - 3 u s2 + 2 n u^3.
+       moments_push(x) re-establishes Rep for S + {x} (exact rational-function identities on the terms the code produces, decided by
+       sympy); moments_clear followed by one push gives Rep for {x}; mean / second / third return u, M2/n, M3/n.  By induction the
+       one-pass results equal the two-pass definitions for every sequence."""
+    import sympy as sp
+    from mdvc import polyid
+    from mdvc.cinterp import StructObj
+
+    c = ctx.load_c("mdtraj/geometry/src/moments.cpp", ["moments_push", "moments_clear", "moments_mean", "moments_second", "moments_third"],
+                   include=("mdtraj/geometry/include",))
+    x = ctx.real("x")
+    if case == "first-push":
+        st = StructObj("moments_t", _n=ctx.int("garbage_n"), _u=ctx.real("garbage_u"), _M2=ctx.real("garbage_M2"), _M3=ctx.real("garbage_M3"))
+        o1 = ctx.ccall("moments_clear", st)
+        o2 = ctx.ccall("moments_push", st, x)
+        ctx.ensure("returns-normally", o1.exc is None and o2.exc is None)
+        ctx.cover("pushed")
+        ctx.ensure("after-clear-and-one-push:n=1,u=x,M2=0,M3=0", z3.And(core.term(st.fields["_n"]) == 1, rterm(st.fields["_u"]) == rterm(x),
+                                                                         rterm(st.fields["_M2"]) == 0, rterm(st.fields["_M3"]) == 0))
+        return
+    n = ctx.int("n")
+    s1, s2, s3 = ctx.real("s1"), ctx.real("s2"), ctx.real("s3")
+    ctx.assume(n >= 1)
+    nR = z3.ToReal(n.t)
+    u = rterm(s1) / nR
+    st = StructObj("moments_t", _n=n, _u=SReal(u), _M2=SReal(rterm(s2) - nR * u * u), _M3=SReal(rterm(s3) - 3 * u * rterm(s2) + 2 * nR * u * u * u))
+    out = ctx.ccall("moments_push", st, x)
+    ctx.ensure("returns-normally", out.exc is None)
+    ctx.cover("pushed")
+    env = {}
+    N, S1, S2, S3, X = (sp.Symbol(k, real=True) for k in ("n", "s1", "s2", "s3", "x"))
+    env.update({"n": N, "s1": S1, "s2": S2, "s3": S3, "x": X})
+    n1, t1, t2, t3 = N + 1, S1 + X, S2 + X ** 2, S3 + X ** 3
+    u1 = t1 / n1
+    ctx.ensure("count-incremented", core.term(st.fields["_n"]) == n.t + 1)
+    ctx.ensure("Rep-preserved:_u=mean", polyid.rational_equal(rterm(st.fields["_u"]), u1, env), kind="lemma-poly")
+    ctx.ensure("Rep-preserved:_M2=sum-of-squared-deviations", polyid.rational_equal(rterm(st.fields["_M2"]), t2 - n1 * u1 ** 2, env), kind="lemma-poly")
+    ctx.ensure("Rep-preserved:_M3=sum-of-cubed-deviations", polyid.rational_equal(rterm(st.fields["_M3"]), t3 - 3 * u1 * t2 + 2 * n1 * u1 ** 3, env), kind="lemma-poly")
+    m = ctx.ccall("moments_mean", st)
+    v2 = ctx.ccall("moments_second", st)
+    v3 = ctx.ccall("moments_third", st)
+    ctx.ensure("mean=_u,second=_M2/n,third=_M3/n", z3.And(rterm(m.value) == rterm(st.fields["_u"]),
+                                                          rterm(v2.value) * z3.ToReal(core.term(st.fields["_n"])) == rterm(st.fields["_M2"]),
+                                                          rterm(v3.value) * z3.ToReal(core.term(st.fields["_n"])) == rterm(st.fields["_M3"])))
+
+
+contract("C16", "mdtraj/geometry/src/moments.cpp", "moments_push|moments_clear|moments_mean|moments_second|moments_third", cases=["first-push", "push"], lang="c",
+         replay="drid", covers=["pushed"])(running_moments)
